@@ -288,6 +288,11 @@ def run_scan(ctx):
     """FStringScan.tla: the scanner's mirror on every body over its alphabet"""
     r = ctx.tlc("literal", "FStringScan", "FStringScan_%s.cfg" % ("quick" if ctx.quick else "thorough"), coverage=False, timeout=3000)
     cases = r.replays
+    if not ctx.quick:
+        # longer bodies over a smaller alphabet (length 6 over 11 characters)
+        seen = {c["body"] for c in cases}
+        r2 = ctx.tlc("literal", "FStringScan", "FStringScan_deep.cfg", coverage=False, timeout=5400, heap="10g")
+        cases = cases + [c for c in r2.replays if c["body"] not in seen]
     from vcheck import ToolError
     if len(cases) < 10000:
         raise ToolError("vacuity: FStringScan emitted %d bodies" % len(cases))
